@@ -160,7 +160,7 @@ SOURCE_TIES = {
                                          'held_text': 'property theorem composed with the tie: stated on the translated source itself', 'users': {'C19', 'C15'}},
     'encode properties on the source': {'unit': 'SrcEnc', 'module': 'HpackVerif.Props.OnSourceEncApi', 'audit': 'AuditOnSourceEncApi.lean',
                                         'needs': ['_to_bytes', '_dict_to_iterable', 'Encoder.encode'],
-                                        'held_text': 'property theorem composed with the tie: stated on the translated source itself', 'users': {'C03', 'C09'}},
+                                        'held_text': 'property theorem composed with the tie: stated on the translated source itself', 'users': {'C03', 'C09', 'C18'}},
     'Huffman encoder': {'unit': 'SrcHuffEnc', 'module': 'HpackVerif.Props.SrcHuffEnc', 'audit': 'AuditSrcHuffEnc.lean',
                         'users': {'C12', 'C03', 'C01'}},
     'header table': {'unit': 'SrcTable', 'module': 'HpackVerif.Props.SrcTable', 'audit': 'AuditSrcTable.lean',
